@@ -84,9 +84,12 @@ namespace igris
     {
         static void serialize(Archive &keeper, const std::vector<T> &vec)
         {
+            // element by element: the raw object bytes of T are only its
+            // encoding for trivially copyable T (for those the bytes written
+            // are the same as before)
             igris::serialize(keeper, (uint16_t)vec.size());
-            igris::serialize(keeper,
-                             igris::archive::data<T>{vec.data(), vec.size()});
+            for (const auto &value : vec)
+                igris::serialize(keeper, value);
         }
 
         static void deserialize(Archive &keeper, std::vector<T> &vec)
